@@ -73,6 +73,14 @@ def detect(d, props):
         rc, out = sh(["git", "apply", os.path.join(d, "patch.diff")], cwd=wt)
         if rc != 0:  # context drifted because of a later fix: commit nearby: retry with less context
             rc, out = sh(["git", "apply", "-C1", os.path.join(d, "patch.diff")], cwd=wt)
+        if rc != 0:  # ... or merge against the blobs the patch was written for
+            rc, out = sh(["git", "apply", "--3way", os.path.join(d, "patch.diff")], cwd=wt)
+            if rc == 0:
+                sh(["git", "reset", "-q"], cwd=wt)
+        if rc != 0 and os.path.exists(os.path.join(d, "patch_rebased.diff")):
+            # the change re-done by hand on top of later fix: commits (patch.diff stays as its author wrote it)
+            sh(["git", "reset", "--hard", "-q"], cwd=wt)
+            rc, out = sh(["git", "apply", os.path.join(d, "patch_rebased.diff")], cwd=wt)
         if rc != 0:
             raise SystemExit("patch does not apply: " + out)
         for prop in props:
